@@ -78,6 +78,18 @@ impl ProcFacts {
     pub fn stopped_waiting(&self) -> Option<(u64, u64, &'static str)> {
         let ce = self.comm_end.as_ref()?;
         if ce.2 == "timed_out" {
+            // a read round that ran out of time is where scrut stopped waiting - unless it went
+            // on to wait for the process and got its status without having ended it itself
+            // (reading in short rounds and looking at the process in between is a legitimate
+            // way to wait; whether all output was read is C13's question)
+            // (any kill counts: scrut also kills a shell that has ended when a grandchild still
+            // holds the pipes)
+            let killed_by_scrut = self.killed.is_some();
+            if let Some((t, r, ovh)) = &self.wait {
+                if !killed_by_scrut && *t >= ce.0 && r != "None" && !r.starts_with("err") && self.exit.is_some() {
+                    return Some(((*t).max(ce.0), (*ovh).max(ce.1), "ok"));
+                }
+            }
             return Some((ce.0, ce.1, "timed_out"));
         }
         if ce.2 != "ok" {
